@@ -11,7 +11,7 @@
  *   (2) for ep_map_sswum / ep_map_rnd / ep_map_basic: EQUALITY with the reference construction: expand_message_xmd (ref_hash.h, OpenSSL SHA-256)
  *   with the library's tag, big-endian reduction, the simplified SWU map (RFC 9380 6.6.2) resp. the Shallue-van de Woestijne map
  *   (draft-irtf-cfrg-hash-to-curve-06, 6.6.1) written from their definitions on GMP, the sign rule sgn0(y) = sgn0(t) (parity of the canonical residues), the isogeny evaluated from the stored coefficients, addition of the two images and
- *   cofactor clearing (h, or 1 - x on BLS12 curves) by the reference group law. The map constants are recomputed from Z and the curve; c3's sign is read.
+ *   cofactor clearing (h, or 1 - x on BLS12 curves) by the reference group law. The map constants are recomputed from Z and the curve (c3 as the root with sgn0 = 0) and compared with the stored ones.
  * Case args: rnd: cid, u0, u1 (integers; encoded big-endian into elm bytes each);  msg: cid, entry, length, pattern.
  */
 #include "ep2_common.h"
@@ -63,7 +63,8 @@ static int setup_map(long cid) {
 		mpz_t gz, d; mpz_inits(gz, d, NULL); g_of(gz, MZ, MA, MB); mpz_mul(d, MZ, MZ); mpz_mul_ui(d, d, 3); mpz_addmul_ui(d, MA, 4); mpz_mod(d, d, RC.p);
 		vf_fp_get(C3, ctx->ep_map_c[2]);
 		if (!mpz_sgn(gz) || !mpz_sgn(d)) { vf_fail(NULL, "constants: SvdW Z has g(Z) = 0 or 3Z^2 + 4A = 0 on curve %ld", cid); ok = 0; }
-		if (ok) { mpz_mul(t, C3, C3); mpz_mul(u, gz, d); mpz_add(t, t, u); mpz_mod(t, t, RC.p); if (mpz_sgn(t)) { vf_fail(NULL, "constants: stored c3 does not satisfy c3^2 = -g(Z)(3Z^2 + 4A) on curve %ld", cid); ok = 0; }
+		if (ok) { /* c3 = sqrt(-g(Z)(3Z^2 + 4A)) with sgn0(c3) = 0 (draft-06 6.6.1 and the source comment): recomputed, the stored value must be that root */
+			mpz_mul(u, gz, d); mpz_neg(u, u); mpz_mod(u, u, RC.p); if (!ref_sqrt_mod(t, u, RC.p)) { vf_fail(NULL, "constants: -g(Z)(3Z^2 + 4A) is not a square on curve %ld", cid); ok = 0; } else { if (mpz_odd_p(t)) mpz_sub(t, RC.p, t); if (mpz_cmp(t, C3)) { vf_fail(NULL, "constants: stored c3 is not the square root of -g(Z)(3Z^2 + 4A) with sgn0 = 0 on curve %ld", cid); ok = 0; } mpz_set(C3, t); }
 			vf_fp_get(t, ctx->ep_map_c[0]); if (mpz_cmp(t, gz)) { vf_fail(NULL, "constants: stored g(Z) is wrong on curve %ld", cid); ok = 0; }
 			vf_fp_get(t, ctx->ep_map_c[1]); mpz_set_ui(u, 2); mpz_invert(u, u, RC.p); mpz_mul(u, u, MZ); mpz_neg(u, u); mpz_mod(u, u, RC.p); if (mpz_cmp(t, u)) { vf_fail(NULL, "constants: stored -Z/2 is wrong on curve %ld", cid); ok = 0; }
 			vf_fp_get(t, ctx->ep_map_c[3]); mpz_invert(u, d, RC.p); mpz_mul(u, u, gz); mpz_mul_si(u, u, -4); mpz_mod(u, u, RC.p); if (mpz_cmp(t, u)) { vf_fail(NULL, "constants: stored -4 g(Z)/(3Z^2 + 4A) is wrong on curve %ld", cid); ok = 0; } }
